@@ -548,7 +548,13 @@ def run(project, chk):
     pe = transform(comp, for_int)
     want_a = term("int(c) if 0 <= c <= 255 else RAISE", c=cvar)
     want_b = term("c if 0 <= c <= 255 else RAISE", c=cvar)
-    chk.check(pe in (want_a, want_b), "N6", pfi.short, "per-component chain for int input", project.loc(pfi.module, lp), "an int component in 0..255 is kept as it is; any other int is rejected",
+    from sa.formula import mk_not as _mk_not
+    forms = {pe}
+    if pe[0] == "ite" and not (pe[3][0] == "ite"):     # `reject if out of range else keep` is the same decision written from the other end
+        forms.add(("ite", _mk_not(pe[1]), pe[3], pe[2]))
+    wants = {want_a, want_b, term("int(c) if (c >= 0 and c <= 255) else RAISE", c=cvar), term("c if (c >= 0 and c <= 255) else RAISE", c=cvar),
+             term("int(c) if (0 <= c and c <= 255) else RAISE", c=cvar), term("c if (0 <= c and c <= 255) else RAISE", c=cvar)}
+    chk.check(bool(forms & wants), "N6", pfi.short, "per-component chain for int input", project.loc(pfi.module, lp), "an int component in 0..255 is kept as it is; any other int is rejected",
               how=f"partial evaluation for ints: {show(pe)[:120]}", message=f"for an int component the decision chain reduces to {show(pe)[:200]} instead of `0 <= c <= 255 ? int(c) : raise`: a tuple of three 8-bit ints does not parse to itself")
 
     # ---------------------------------------------------------------- N4 hex
